@@ -10,5 +10,6 @@ INVARIANT DisconnectStopsPdo
 INVARIANT HbPayloadIsState
 INVARIANT PdoPayloadCurrent
 INVARIANT RestartUsesCurrentId
+INVARIANT SyncRestartUsesCurrentId
 VIEW View
 CHECK_DEADLOCK FALSE
